@@ -254,6 +254,8 @@ type BatchOpts struct {
 	NullOK     bool
 	NoHot      bool
 	Plain      bool // small-domain, never-null, never-empty tag values (criteria workloads)
+	// > 0: every non-entity tag / every field is null with probability 1/rate (also with Plain/SmallField)
+	NullTagRate, NullFieldRate int
 	SmallField bool // int fields in [-100,100] (rarely int64 extremes), float fields k/4: sums are exact in any order
 	FixedTimes []int64
 }
@@ -329,9 +331,16 @@ func (m *MeasureModel) GenBatch(tp *simcore.Tape, o BatchOpts, batchNo int) []*M
 				} else {
 					r.Tags[t.Name] = GenTag(tp, t.Type, o.NullOK)
 				}
+				if o.NullTagRate > 0 && tp.Bool(1, o.NullTagRate) {
+					r.Tags[t.Name] = TNull()
+				}
 			}
 		}
 		for _, f := range m.S.Fields {
+			if o.NullFieldRate > 0 && tp.Bool(1, o.NullFieldRate) {
+				r.Fields[f.Name] = FNull()
+				continue
+			}
 			switch {
 			case o.SmallField && f.Type == databasev1.FieldType_FIELD_TYPE_INT:
 				v := int64(tp.Range(-100, 100))
